@@ -914,9 +914,22 @@ static void runState(State &s) {
         case Instruction::Switch: {
             auto *sw = cast<SwitchInst>(&I); Val c = getVal(f, sw->getCondition());
             if (!c.sym()) { auto *ci = ConstantInt::get(cast<IntegerType>(sw->getCondition()->getType()), c.c); enterBlock(s, f, sw->findCaseValue(ci)->getCaseSuccessor()); continue; }
-            uint64_t v = concretize(s, c, "switch"); // forks re-executing states for the other feasible values
-            // group: instead of one fork per value, it is enough that each feasible value is explored; concretize does that
-            auto *ci = ConstantInt::get(cast<IntegerType>(sw->getCondition()->getType()), v); enterBlock(s, f, sw->findCaseValue(ci)->getCaseSuccessor()); continue; }
+            // one alternative per distinct successor block (not per value)
+            std::vector<std::pair<BasicBlock *, z3::expr>> alts; z3::expr ce = c.bv(); z3::expr none = Z.bool_val(true);
+            for (auto &cs : sw->cases()) {
+                z3::expr eq = ce == Z.bv_val(cs.getCaseValue()->getZExtValue(), c.w); none = none && !eq; BasicBlock *to = cs.getCaseSuccessor();
+                bool found = false; for (auto &a : alts) if (a.first == to) { a.second = a.second || eq; found = true; break; }
+                if (!found) alts.push_back({to, eq});
+            }
+            { BasicBlock *to = sw->getDefaultDest(); bool found = false; for (auto &a : alts) if (a.first == to) { a.second = a.second || none; found = true; break; } if (!found) alts.push_back({to, none}); }
+            uint64_t mvv = modelU64(s, ce); auto *mci = ConstantInt::get(cast<IntegerType>(sw->getCondition()->getType()), mvv); BasicBlock *mine = sw->findCaseValue(mci)->getCaseSuccessor();
+            z3::expr myCond = Z.bool_val(true);
+            for (auto &a : alts) {
+                if (a.first == mine) { myCond = a.second; continue; }
+                std::shared_ptr<z3::model> m2;
+                if (checkSat(s, a.second, &m2)) { auto o = std::make_unique<State>(s); addPC(*o, a.second, m2); o->depth++; enterBlock(*o, o->T().stack.back(), a.first); pushWork(std::move(o)); }
+            }
+            addPC(s, myCond); s.depth++; enterBlock(s, f, mine); continue; }
         case Instruction::Ret: {
             auto *ri = cast<ReturnInst>(&I); Val rv; bool has = ri->getReturnValue(); if (has) rv = getVal(f, ri->getReturnValue());
             const CallBase *cs = f.callsite; popFrame(s);
